@@ -24,7 +24,7 @@ pub fn compatible(origin_family: u8, origin: Artifact, reader: Bk, artifact: Art
     false
 }
 
-pub fn offer(w: &mut World, text: &TextRef, faults_: &[TokFault], reader: Bk, artifact: Artifact) {
+pub fn offer(w: &mut World, text: &TextRef, faults_: &[TokFault], reader: Bk, artifact: Artifact, expect: Option<bool>, why: &str) {
     let Some((orig, family, origin_art)) = w.resolve_text(text) else {
         w.stats.bump("skipped:offer-missing-text");
         return;
@@ -45,6 +45,7 @@ pub fn offer(w: &mut World, text: &TextRef, faults_: &[TokFault], reader: Bk, ar
     w.stats.evaluations += 1;
     w.stats.bump(&format!("op:offer:{}", reader.name()));
     w.stats.distinct.insert(format!("offer|{}|{}|from-v{}-{}|{}|{}", reader.name(), artifact.name(), family, origin_art.name(), fclass, r.class()));
+    w.log.update_str(&format!("offer {} {} {} -> {}", reader.name(), artifact.name(), d.text, r.class()));
     let op = format!("parse-{}", artifact.name());
     let own = !literal && compatible(family, origin_art, reader, artifact);
     // honest origin? (keys injected as Byzantine text may legitimately be rejected by their own parser)
@@ -81,6 +82,17 @@ pub fn offer(w: &mut World, text: &TextRef, faults_: &[TokFault], reader: Bk, ar
                     format!("a v{family} {} was accepted by the {} {} parser: {}", origin_art.name(), reader.name(), artifact.name(), truncate(&d.text, 100)),
                 );
             }
+            if expect == Some(false) {
+                let (prop, class): (&'static str, &str) = match why.split_once(':') {
+                    Some(("C08", c)) => ("C08", c),
+                    Some(("C09", c)) => ("C09", c),
+                    Some(("C13", c)) => ("C13", c),
+                    Some((_, c)) => ("C10", c),
+                    None => ("C10", "must-reject-accepted"),
+                };
+                let class = class.to_string();
+                w.violate(prop, &class, reader, &op, &truncate(&orig, 48), format!("{} parser accepted {:?} ({why})", artifact.name(), truncate(&d.text, 100)));
+            }
             w.stats.bump("offer:accepted");
         }
         Out::Err(e) => {
@@ -93,6 +105,10 @@ pub fn offer(w: &mut World, text: &TextRef, faults_: &[TokFault], reader: Bk, ar
                     "",
                     format!("the {} parser rejects a string the library produced for that very kind: {e:?} {}", artifact.name(), truncate(&d.text, 100)),
                 );
+            }
+            if expect == Some(true) {
+                let prop: &'static str = if why.starts_with("C08") { "C08" } else if why.starts_with("C13") { "C13" } else { "C09" };
+                w.violate(prop, "valid-text-rejected", reader, &op, &truncate(&orig, 48), format!("{} parser rejected {:?}: {e:?} ({why})", artifact.name(), truncate(&d.text, 100)));
             }
             w.stats.bump("offer:rejected");
         }
@@ -112,6 +128,7 @@ pub fn serde_check(w: &mut World, text: &TextRef, reader: Bk, artifact: Artifact
     w.stats.bump(&format!("op:serde:{}", reader.name()));
     w.stats.distinct.insert(format!("serde|{}|{}", reader.name(), artifact.name()));
     let op = format!("serde-{}", artifact.name());
+    w.log.update_str(&format!("serde {} {} {}", reader.name(), artifact.name(), orig));
     // key artifacts go through KeyText in serde (Key itself has no serde impl): every text is accepted
     match be.serde_roundtrip(artifact, &orig) {
         Out::Ok((json, back)) => {
